@@ -8,7 +8,6 @@ package c16
 import (
 	"encoding/json"
 	"fmt"
-	"net/http"
 	"os"
 	"sort"
 	"strings"
@@ -222,22 +221,8 @@ func (sr *svcRun) agentProbe(magic uint32, endpoint string) (int, string, []byte
 	body := demon.Header(magic, 0x1600+uint32(sr.reqID), 0x63, uint32(sr.reqID), rest)
 	want := body[12:] // what the teamserver hands to the service: everything after size, magic, agent id
 	if endpoint == "" {
-		req, _ := http.NewRequest(http.MethodPost, fmt.Sprintf("http://127.0.0.1:%d/", sr.port), strings.NewReader(string(body)))
-		resp, err := sr.s.httpc.Do(req)
-		if err != nil {
-			return 0, err.Error(), want
-		}
-		defer resp.Body.Close()
-		var sb strings.Builder
-		buf := make([]byte, 4096)
-		for {
-			n, err := resp.Body.Read(buf)
-			sb.Write(buf[:n])
-			if err != nil {
-				break
-			}
-		}
-		return resp.StatusCode, sb.String(), want
+		st, b := sr.s.postRaw(sr.port, sr.s.model["H"].Gen, body)
+		return st, b, want
 	}
 	st, b := postEndpoint(sr.s.tsc, sr.s.r.Port, endpoint, body)
 	return st, b, want
@@ -270,8 +255,19 @@ func (sr *svcRun) check(after string) {
 	}
 	cmp("agent-type", got.Agents, want.Agents)
 	cmp("listener-kind", got.Listeners, want.Listeners)
-	cmp("exc2-endpoint", got.Endpoints, want.Endpoints)
-	cmp("exc2-listener", got.Registry, want.Registry)
+	// ExC2: route and registry entry belong together (one registration, one cleanup)
+	exE, miE := diff(toSet(got.Endpoints), toSet(want.Endpoints))
+	exR, miR := diff(toSet(got.Registry), toSet(want.Registry))
+	if len(exE)+len(exR) > 0 {
+		sr.viol("svc-leftover:exc2", fmt.Sprintf("after %s: ExC2 endpoints %v / listeners %v of a closed connection still registered (endpoints %v, registry %v)", after, exE, exR, got.Endpoints, got.Registry), detail())
+	}
+	if len(miE)+len(miR) > 0 {
+		sr.viol("svc-lost:exc2", fmt.Sprintf("after %s: ExC2 endpoints %v / listeners %v that should still be there disappeared (endpoints %v, registry %v)", after, miE, miR, got.Endpoints, got.Registry), detail())
+	}
+	if len(got.Endpoints) != len(toSet(got.Endpoints)) {
+		sr.viol("svc-dup:exc2-endpoint", fmt.Sprintf("after %s: duplicate routes %v", after, got.Endpoints), detail())
+	}
+	time.Sleep(100 * time.Millisecond) // the rest of the connection's teardown (no verdict depends on it)
 
 	// function. Survivors first.
 	var liveMagic uint32
